@@ -50,6 +50,7 @@ type TField struct {
 	Default *TVal  // IDL default (scalars/strings only)
 	Anno    string // raw annotation text appended to the IDL field
 	JSConv  bool
+	Query   string // api.query source name ("" = none)
 }
 
 func (f *TField) Key() string {
@@ -155,6 +156,9 @@ type tgenOpts struct {
 	// OptionalDefaults lets optional fields carry IDL defaults too (rarely enabled: together with
 	// SetOptionalBitmap+UseDefaultValue it is the precondition of a known native/Go divergence).
 	OptionalDefaults bool
+	// QueryAnno: some scalar / string fields carry (api.query = "q_<name>") - only meaningful for
+	// converters with EnableHttpMapping
+	QueryAnno bool
 }
 
 type tgen struct {
@@ -308,6 +312,10 @@ func (g *tgen) newStruct(depth int) *TStruct {
 			f.JSConv = true
 			f.Anno = ` (api.js_conv = "true")`
 		}
+		if g.o.QueryAnno && f.Anno == "" && (f.T.Kind == tI64 || f.T.Kind == tI32 || f.T.Kind == tBOOL || (f.T.Kind == tSTRING && !f.T.Binary)) && g.t.Chance(1, 2, "field.query") {
+			f.Query = "q_" + f.Name
+			f.Anno = fmt.Sprintf(` (api.query = "%s")`, f.Query)
+		}
 		if g.o.Defaults && (f.Req == reqDefault || (f.Req == reqOptional && g.o.OptionalDefaults)) && g.t.Chance(1, 3, "field.default") {
 			f.Default = g.defaultFor(f.T)
 		}
@@ -390,7 +398,8 @@ func renderIDL(s *TSchema) string {
 		sb.WriteString("}\n\n")
 	}
 	root := s.Root.St.Name
-	fmt.Fprintf(&sb, "service Sim {\n  %s Call(1: %s req)\n}\n", root, root)
+	sb.WriteString("exception SimExc {\n  1: i32 code\n  2: string msg\n}\n\n")
+	fmt.Fprintf(&sb, "service Sim {\n  %s Call(1: %s req) throws (1: SimExc e)\n}\n", root, root)
 	return sb.String()
 }
 
